@@ -10,4 +10,4 @@ ASSUMPTIONS = conn.COMMON_ASSUMPTIONS
 def targets(eng):
     return conn.targets_for(eng, ["process_packet", "_handle_ping_request_internal", "_handle_get_time_request_internal",
                                   "_handle_disconnect_request_internal", "_add_message_callback_without_remove",
-                                  "add_message_callback", "_remove_message_callback"], ["C12"])
+                                  "add_message_callback", "_remove_message_callback", "finish_connection"], ["C12"])
